@@ -124,6 +124,7 @@ impl Prop for C05 {
             queue: QueueCfg::Vec,
             controllers: 1,
             tree,
+            plain488: false,
         };
         let mut t = base_trace("C05", seed, run, "enumeration", cfg.clone());
         let tc = TreeCtx::new(&cfg.tree);
